@@ -22,11 +22,12 @@ struct CountingStorage {
 CountingStorage g_storage;
 
 struct DoneMark { int id; ~DoneMark() { dsim::cell_set(BODY_DONE + id, 1); } };
-struct Node { int id; int ty; int start; int compl_; int who_resolves; std::vector<int> kids; bool counting_frame; };
+struct Node { int id; int ty; int start; int compl_; int who_resolves; std::vector<int> kids; bool counting_frame; bool as_value = false; };
 struct World {
     std::vector<Node> nodes;
     cocls::promise<void> inner[MAXN];         // promises of the futures on which suspended bodies wait
     cocls::thread_pool *pool = nullptr;
+    std::unique_ptr<vs::Counted> objs[MAXN];  // what a coroutine with a reference result (ty 3) refers to; owned here, never by a future
 };
 World *W;
 long node_value(int id) { return 1000 + id; }
@@ -40,7 +41,7 @@ void delivered(int id, int kind, long val) {
     if (throws) { if (kind != 2 || val != id) dsim::fail("C04.wrong_result", "coroutine %d throws %d, its bound party received kind %d value %ld", id, id, kind, val); }
     else if (kind != 1 || (nd.ty != 1 && val != node_value(id))) dsim::fail("C04.wrong_result", "coroutine %d returns %ld, its bound party received kind %d value %ld", id, node_value(id), kind, val);
 }
-template <typename T> long payload(T &x) { if constexpr (std::is_same_v<T, vs::Counted>) return x.value(); else return x; }
+template <typename T> long payload(T &x) { if constexpr (std::is_same_v<std::remove_cv_t<T>, vs::Counted>) return x.value(); else return x; }
 
 void resolve_inner(int id) {
     if (dsim::cell_xchg(INNER_DONE + id, 1)) return;
@@ -66,7 +67,7 @@ cocls::async<void> run_child(int id);
     if (nd.compl_ == C_SUSPEND_VALUE || nd.compl_ == C_SUSPEND_THROW) co_await wait_inner(id);            \
     if (local.value() != id + 1) dsim::fail("C04.frame_corrupt", "local of coroutine %d damaged", id);    \
     if (nd.compl_ == C_THROW || nd.compl_ == C_SUSPEND_THROW) throw vs::TestError(id);                    \
-    if constexpr (std::is_void_v<T>) co_return; else co_return T(node_value(id));
+    if constexpr (std::is_void_v<T>) co_return; else if constexpr (std::is_reference_v<T>) co_return *W->objs[id]; else co_return T(node_value(id));
 
 template <typename T> cocls::async<T> body(int id, vs::Counted arg) { NODE_BODY }
 template <typename T> cocls::with_allocator<CountingStorage, cocls::async<T>> body_counted(CountingStorage &, int id, vs::Counted arg) { NODE_BODY }
@@ -77,7 +78,13 @@ template <typename T> cocls::async<T> make(int id) {
     return body<T>(id, vs::Counted(id));
 }
 template <typename T, typename F> void observe_future(int id, F &f) {
-    try { if constexpr (std::is_void_v<T>) { f.value(); delivered(id, 1, 0); } else delivered(id, 1, payload(f.value())); }
+    try {
+        if constexpr (std::is_void_v<T>) { f.value(); delivered(id, 1, 0); }
+        else {
+            if constexpr (std::is_reference_v<T>) if (&f.value() != W->objs[id].get()) dsim::fail("C04.wrong_result", "coroutine %d returns a reference; its bound party received a different object", id);
+            delivered(id, 1, payload(f.value()));
+        }
+    }
     catch (const vs::TestError &e) { delivered(id, 2, e.code); }
     catch (const cocls::await_canceled_exception &) { dsim::fail("C04.wrong_result", "bound future of coroutine %d has no value", id); }
 }
@@ -91,7 +98,12 @@ template <typename T> cocls::async<void> run_child_t(int id) {
         try { if constexpr (std::is_void_v<T>) { co_await make<T>(id); delivered(id, 1, 0); } else delivered(id, 1, payload(co_await make<T>(id))); }   /* the awaiter temporary owns the result: read it within the full expression */
         catch (const vs::TestError &e) { delivered(id, 2, e.code); }
         break; }
-    case S_START: { auto f = make<T>(id).start(); maybe_resolve_here(id); co_await f.has_value(); observe_future<T>(id, f); break; }
+    case S_START: {
+        if constexpr (std::is_reference_v<T>) if (nd.as_value) {      // a coroutine handing out a reference behind an interface declared with the value type
+            cocls::future<std::remove_reference_t<T>> f; f << [&] { return make<T>(id).start(); };
+            maybe_resolve_here(id); co_await f.has_value(); observe_future<T>(id, f); break;
+        }
+        auto f = make<T>(id).start(); maybe_resolve_here(id); co_await f.has_value(); observe_future<T>(id, f); break; }
     case S_START_PROMISE: {
         cocls::future<T> f; auto p = f.get_promise();
         auto co = make<T>(id);
@@ -100,7 +112,12 @@ template <typename T> cocls::async<void> run_child_t(int id) {
         if (p) dsim::fail("C04.start_promise", "promise still valid after start(promise)");
         maybe_resolve_here(id); co_await f.has_value(); observe_future<T>(id, f); break; }
     case S_DETACH: { make<T>(id).detach(); maybe_resolve_here(id); break; }        // delivers to nobody; an exception escapes to nobody
-    case S_FUTURE_CTOR: { cocls::future<T> f(make<T>(id)); maybe_resolve_here(id); co_await f.has_value(); observe_future<T>(id, f); break; }
+    case S_FUTURE_CTOR: {
+        if constexpr (std::is_reference_v<T>) if (nd.as_value) {
+            cocls::future<std::remove_reference_t<T>> f(make<T>(id));
+            maybe_resolve_here(id); co_await f.has_value(); observe_future<T>(id, f); break;
+        }
+        cocls::future<T> f(make<T>(id)); maybe_resolve_here(id); co_await f.has_value(); observe_future<T>(id, f); break; }
     case S_NEVER: { auto co = make<T>(id); (void)co; break; }                        // destroyed unstarted: never runs, arguments destroyed once
     case S_CLAIMED_PROMISE: {
         cocls::future<T> f; auto p = f.get_promise();
@@ -114,24 +131,26 @@ template <typename T> cocls::async<void> run_child_t(int id) {
     case S_POOL: { auto f = W->pool->run(make<T>(id)); maybe_resolve_here(id); co_await f.has_value(); observe_future<T>(id, f); break; }
     default: {   // S_JOIN: blocking join() on a helper thread (join() is not for coroutines); such children are leaves that complete at once
         std::thread t([id] {
-            try { if constexpr (std::is_void_v<T>) { make<T>(id).join(); delivered(id, 1, 0); } else { T r = make<T>(id).join(); delivered(id, 1, payload(r)); } }
+            try { if constexpr (std::is_void_v<T>) { make<T>(id).join(); delivered(id, 1, 0); } else { auto r = make<T>(id).join(); delivered(id, 1, payload(r)); } }
             catch (const vs::TestError &e) { delivered(id, 2, e.code); }
         });
         t.join(); break; }
     }
 }
 cocls::async<void> run_child(int id) {
-    switch (W->nodes[id].ty) { case 0: return run_child_t<long>(id); case 1: return run_child_t<void>(id); default: return run_child_t<vs::Counted>(id); }
+    switch (W->nodes[id].ty) { case 0: return run_child_t<long>(id); case 1: return run_child_t<void>(id); case 2: return run_child_t<vs::Counted>(id); default: return run_child_t<vs::Counted &>(id); }
 }
 void build(World &w, int parent, int depth, int &budget) {
     int nk = depth >= 4 ? 0 : dsim::choose(depth == 0 ? 4 : 3);
     if (depth == 0 && nk == 0) nk = 1;
     for (int k = 0; k < nk && budget > 0; k++) {
         budget--;
-        Node n; n.id = (int)w.nodes.size(); n.ty = dsim::choose(3); n.start = dsim::choose(S_NKINDS); n.compl_ = dsim::choose(C_NKINDS); n.who_resolves = dsim::choose(2); n.counting_frame = dsim::choose(4) == 3;
+        Node n; n.id = (int)w.nodes.size(); n.ty = dsim::choose(4); n.start = dsim::choose(S_NKINDS); n.compl_ = dsim::choose(C_NKINDS); n.who_resolves = dsim::choose(2); n.counting_frame = dsim::choose(4) == 3;
         // a blocked starter cannot resolve: direct co_await and join leave it to the resolver thread; a detached/awaited child whose starter moved on too
         if (n.start == S_AWAIT || n.start == S_JOIN || n.start == S_POOL) n.who_resolves = 1;
         if (n.start == S_FUTURE_CORO) n.counting_frame = false;
+        if (n.ty == 3 && n.start == S_JOIN) n.start = S_START;   // async<T&>::join() returns T move-constructed from the referent (it empties the caller's object): a quirk outside the statement, not driven
+        if (n.ty == 3) { w.objs[n.id] = std::make_unique<vs::Counted>(node_value(n.id)); if (n.start == S_START || n.start == S_FUTURE_CTOR) n.as_value = dsim::flip(); }
         w.nodes.push_back(n);
         if (parent >= 0) w.nodes[parent].kids.push_back(n.id);
         if (n.start == S_JOIN) { w.nodes.back().compl_ = n.compl_ & 1; continue; }
@@ -193,7 +212,7 @@ void dsim_scenario() {
     w.nodes.push_back(root);
     build(w, 0, 0, budget);
     dsim::plan_note("tree:");
-    for (auto &n : w.nodes) if (n.id) dsim::plan_note(" %d{T%d s%d c%d r%d%s}", n.id, n.ty, n.start, n.compl_, n.who_resolves, n.counting_frame ? " cf" : "");
+    for (auto &n : w.nodes) if (n.id) dsim::plan_note(" %d{T%d s%d c%d r%d%s%s}", n.id, n.ty, n.start, n.compl_, n.who_resolves, n.counting_frame ? " cf" : "", n.as_value ? " as-value" : "");
     {
         cocls::thread_pool pool(1 + dsim::choose(2)); w.pool = &pool;
         // resolver thread: completes suspended bodies whose starter does not do it
@@ -234,6 +253,7 @@ void dsim_scenario() {
         bool bound = started && n.start != S_DETACH;
         if (d != (bound ? 1 : 0)) dsim::fail("C04.delivery", "coroutine %d (start mode %d): result delivered %ld times, expected %d", n.id, n.start, d, bound ? 1 : 0);
     }
+    for (auto &n : w.nodes) if (n.ty == 3 && n.id) { if (w.objs[n.id]->value() != node_value(n.id)) dsim::fail("C04.wrong_result", "object referred to by coroutine %d was modified", n.id); w.objs[n.id].reset(); }
     if (dsim::cell_get(FR_ALLOC) != dsim::cell_get(FR_FREE)) dsim::fail("C04.frame_balance", "counting storage handed out %ld frames, %ld were returned", dsim::cell_get(FR_ALLOC), dsim::cell_get(FR_FREE));
     vs::Counted::expect_balanced("C04.instances");
     W = nullptr;
